@@ -1,0 +1,98 @@
+//go:build verif
+
+// Contracts of this package for the deductive verifier in /verif (vcgo).
+// Comment-only; compiled only with -tags verif.
+
+package websocket
+
+// ---------------------------------------------------------------------------
+// Conn (C07): the net.Conn adapter over a WebSocket is a faithful byte stream.
+//
+// Ghost model of the inbound direction: gStream is the concatenation of the
+// payloads of all binary messages the peer sends (fixed, unknown); gPos is the
+// next byte not yet handed to the caller; gMsgEnd is where the message being
+// read ends; gReader is that message's reader; gLost records that a message
+// was abandoned before its end (bytes skipped). The assumed contracts say what
+// gorilla's NextReader and a message reader do to this model; Conn.Read is then
+// proved to deliver exactly the next bytes, in order, once, for every buffer
+// size and every message chunking (empty messages, messages larger or smaller
+// than the buffer, EOF together with or after the last bytes).
+// Outbound: gOut/gOutLen is what has been handed to WriteMessage.
+
+//@ ghost gStream arr[byte]
+//@ ghost gPos int
+//@ ghost gMsgEnd int
+//@ ghost gLost bool
+//@ ghost gReader io.Reader
+//@ ghost gBroken bool
+//@ ghost gMsgEOF bool
+//@ ghost gOut arr[byte]
+//@ ghost gOutLen int
+//@ ghost gOutBinary bool
+
+//@ extern github.com/gorilla/websocket.(*Conn).NextReader
+//@   modifies-all $gPos $gMsgEnd $gLost $gReader $gMsgEOF
+//@   ghost-set gMsgEOF = false
+//@   ghost-set gLost = old(gLost) || (result2 == nil && old(gPos) != old(gMsgEnd))
+//@   ghost-set gPos = (result2 == nil) ? old(gMsgEnd) : old(gPos)
+//@   ghost-set gReader = (result2 == nil) ? result1 : old(gReader)
+//@   ensures[reader] result2 == nil ==> result1 != nil
+//@   ensures[next-message] result2 == nil ==> gMsgEnd >= old(gMsgEnd)
+//@   ensures[same-message] result2 != nil ==> gMsgEnd == old(gMsgEnd)
+//@   ensures[only-binary-counts] result2 == nil && result0 != 2 ==> gMsgEnd == old(gMsgEnd)
+//@   ensures[env-permanent] old(gBroken) ==> result2 != nil
+
+// A message reader hands out the bytes of its message in order and reports
+// io.EOF only at the end of the message (possibly together with the last bytes).
+//@ extern-iface io.(Reader).Read
+//@   modifies-all $gPos $gBroken $gMsgEOF
+//@   ghost-set gMsgEOF = self == gReader && result1 == io.EOF
+//@   ghost-set gBroken = old(gBroken) || (self == gReader && result1 != nil && result1 != io.EOF)
+//@   modifies elems(p)
+//@   ensures[count] 0 <= result0 && result0 <= len(p)
+//@   ensures[message-bytes] self == gReader ==> gPos == old(gPos) + result0 && gPos <= gMsgEnd && (forall i int :: 0 <= i && i < result0 ==> p[i] == gStream[old(gPos) + i])
+//@   ensures[eof-at-end] self == gReader && result1 == io.EOF ==> gPos == gMsgEnd
+//@   ensures[other-reader] self != gReader ==> gPos == old(gPos)
+//@   ensures[env-blocks] len(p) > 0 && result0 == 0 ==> result1 != nil
+
+//@ extern github.com/gorilla/websocket.(*Conn).WriteMessage
+//@   modifies-all $gOut $gOutLen $gOutBinary
+//@   ghost-set gOutLen = (result == nil) ? old(gOutLen) + len(data) : old(gOutLen)
+//@   ghost-set gOutBinary = old(gOutBinary) && (result != nil || messageType == 2)
+//@   ensures[appended] result == nil ==> (forall i int :: 0 <= i && i < len(data) ==> gOut[old(gOutLen) + i] == data[i])
+//@   ensures[kept] forall i int :: 0 <= i && i < old(gOutLen) ==> gOut[i] == old(gOut[i])
+
+//@ nonnil Conn.wsConn
+//@ immutable Conn.wsConn
+
+// Between calls: no reader held means the previous message was read to its
+// end; a reader held is the current message's.
+// (read errors other than io.EOF are permanent in gorilla/websocket: gBroken)
+//@ pure connInv(c *Conn) bool = (c.reader == nil ==> gPos == gMsgEnd || gBroken) && (c.reader != nil ==> c.reader == gReader) && gPos <= gMsgEnd
+
+//@ contract New
+//@   serves C07
+//@   requires[conn] wsConn != nil
+//@   ensures[fresh] result != nil && fresh(result) && result.wsConn == wsConn && result.reader == nil
+
+//@ contract (*Conn).Read
+//@   serves C07
+//@   requires[inv] connInv(c) && !gLost
+//@   modifies c.reader, elems(b)
+//@   ensures[inv] connInv(c)
+//@   ensures[no-loss] !gLost
+//@   ensures[in-order] 0 <= result0 && result0 <= len(b) && gPos == old(gPos) + result0
+//@   ensures[bytes] forall i int :: 0 <= i && i < result0 ==> b[i] == gStream[old(gPos) + i]
+//@   ensures[eof-hidden] result0 > 0 && result1 != nil ==> result1 != io.EOF
+//@   ensures[progress-or-error] len(b) > 0 && result0 == 0 ==> result1 != nil
+//@   ensures[message-end-is-not-stream-end] result1 != nil && gMsgEOF ==> result1 != io.EOF
+//@   loop 1 frame c.reader, elems(b)
+//@   loop 1 invariant[inv] connInv(c) && !gLost
+//@   loop 1 invariant[nothing-delivered] gPos == old(gPos)
+
+//@ contract (*Conn).Write
+//@   serves C07
+//@   ensures[all-or-error] (result1 == nil ==> result0 == len(b) && gOutLen == old(gOutLen) + len(b)) && (result1 != nil ==> result0 == 0 && gOutLen == old(gOutLen))
+//@   ensures[bytes] result1 == nil ==> (forall i int :: 0 <= i && i < len(b) ==> gOut[old(gOutLen) + i] == b[i])
+//@   ensures[kept] forall i int :: 0 <= i && i < old(gOutLen) ==> gOut[i] == old(gOut[i])
+//@   ensures[binary] old(gOutBinary) ==> gOutBinary
